@@ -94,6 +94,16 @@ func wirePayload(r *Rng, n int) []byte {
 	return b
 }
 
+// panicFind records an implementation panic as a failing input of the bounds-safety properties.
+func panicFind(s *Stream, op, ans string, props ...string) {
+	if len(ans) >= 6 && ans[:6] == "panic:" {
+		for _, p := range props {
+			s.Find(Finding{Property: p, Signature: "panic:" + op[:min(len(op), 6)], What: "the implementation panics (out-of-range access) on this input",
+				Ops: []string{op}, Observed: ans, Expected: "ok or reject"})
+		}
+	}
+}
+
 // TestWire: C13 — IPv4/UDP/ARP assemble and decode, checksum routines.
 func TestWire(t *testing.T) {
 	r := NewRng(Seed(), "wire")
@@ -193,6 +203,7 @@ func TestWire(t *testing.T) {
 		}
 		ans := implDecIP(f)
 		s.Op("decip b="+Hex(f), ans, ans[:2] == "ok")
+		panicFind(s, "decip b="+Hex(f), ans, "C13", "C10")
 		s.Count("decip/" + kind + "/" + ans[:2])
 		_, refErr := RefParseIPv4(f)
 		if (refErr == nil) != (ans[:2] == "ok") {
@@ -203,6 +214,7 @@ func TestWire(t *testing.T) {
 			u := f[20:]
 			ans := implDecUDP(u)
 			s.Op("decudp b="+Hex(u), ans, ans[:2] == "ok")
+			panicFind(s, "decudp b="+Hex(u), ans, "C13", "C10")
 			s.Count("decudp/" + ans[:2])
 			ok := len(u) >= 8 && (int(u[4])<<8|int(u[5])) == len(u)
 			if ok != (ans[:2] == "ok") {
@@ -239,7 +251,9 @@ func TestWire(t *testing.T) {
 			}
 		}
 		x := r.Bytes(Pick(r, 27, 28, 29, r.Intn(40)))
-		s.Op("decarp b="+Hex(x), implDecARP(x), len(x) == 28)
+		ax := implDecARP(x)
+		s.Op("decarp b="+Hex(x), ax, len(x) == 28)
+		panicFind(s, "decarp b="+Hex(x), ax, "C13", "C10")
 	}
 	if len(s.Finds) > 0 {
 		t.Logf("monitor findings: %d", len(s.Finds))
@@ -279,6 +293,7 @@ func TestDhcp(t *testing.T) {
 	checkDecode := func(b []byte, kind string) {
 		ans := implDecDHCP(b)
 		s.Op("decdhcp b="+Hex(b), ans, ans[:2] == "ok")
+		panicFind(s, "decdhcp b="+Hex(b), ans, "C12", "C10")
 		s.Count("decdhcp/" + kind + "/" + ans[:2])
 		// monitor: independent RFC parser
 		ref, rerr := RefParseDHCP(b)
